@@ -253,9 +253,10 @@ claim('C16', 'exploration',
       'ASan, UBSan, the allocation ledger (every malloc / calloc / realloc / strdup / free of the library and its hash '
       'tables, link-time wrapped), SQLite block and handle counters (ICU converters and files, SQLite connections and '
       'statements) and the numeric-locale / rounding-mode probes after every library call are active in every check of '
-      'this suite and reported under that check.  The C16 check proper replays slices of twelve other workloads (C01, C02, '
-      'C03, C04, C06, C07, C10, C12, C13, C14, C15, C19) as sessions ending in full teardown under each of the four '
-      'rounding modes (set around every outermost call; must be unchanged after it), judging only instrument reports; '
+      'this suite and reported under that check.  The C16 check proper replays slices of seventeen other workloads (C01-C15, '
+      'C18, C19) and a workload of its own - every character whose normal form differs in length from the character, '
+      'behind 0-11 ASCII characters, through every normalising entry point - as sessions ending in full teardown under each '
+      'of the four rounding modes (set around every outermost call; must be unchanged after it), judging only instrument reports; '
       'and runs 24 (thorough 300) hostile inputs through the uninstrumented parse runner (parse x3, walk, write, modify, '
       'destroy) under valgrind memcheck with definite / indirect leaks as errors.',
       'Functional verdicts of the replayed workloads are ignored in C16 (their oracles assume the default rounding mode).  '
